@@ -199,6 +199,11 @@ func genMixedRequest(r *core.Rand, id int, limit int, allowFaults bool) ReqSpec 
 	if sp.Proto == "http" && (sp.Codec == "json" || sp.Codec == "proto") && sp.Handler.Code == 0 && sp.Fault.Kind == "" && r.Chance(1, 4) {
 		sp.Accept = "other"
 	}
+	// a Content-Type with a parameter: the codec table is looked up with a
+	// string it does not hold
+	if sp.Proto == "http" && (sp.Codec == "json" || sp.Codec == "proto") && sp.Fault.Kind == "" && !sp.PingPong && r.Chance(1, 8) {
+		sp.CTParam = true
+	}
 	return sp
 }
 
@@ -317,6 +322,9 @@ func runC13(t *testing.T, rc *RunCtx) *RunResult {
 	}
 	for _, rs := range mr.reqs {
 		var v *Violation
+		if rs.spec.CTParam {
+			continue // served or refused: judged by the global invariants and the race detector only
+		}
 		if rs.spec.Poison {
 			// expected to fail; judged by the global invariants (no panic, it
 			// returns) and by what its status text quotes: whatever a codec or
